@@ -38,6 +38,12 @@ func genC20VLine(t *rapid.T) C20VLine {
 			s.Idx = rapid.IntRange(0, 3).Draw(t, "idx")
 		case "inactive":
 			s.Ms = rapid.SampledFrom([]int{0, 0, 0, l.IdleMs - 1, l.IdleMs + 300, 2*l.IdleMs + 200}).Draw(t, "linger")
+		case "read":
+			// the handlers behind the idle handler may take (virtual) time with the message: a decoder waiting for the
+			// rest of a frame, a slow consumer
+			if rapid.IntRange(0, 4).Draw(t, "rslow") == 0 {
+				s.Ms = rapid.SampledFrom([]int{300, l.IdleMs + 1, 2*l.IdleMs + 100, 3*l.IdleMs + 50}).Draw(t, "rms")
+			}
 		case "write":
 			// what happens to the write behind the idle handler: nothing special, it takes Ms of (virtual) time in a
 			// handler nearer the head (a slow transport), or it is refused there (full queue, failing encoder)
@@ -53,6 +59,7 @@ func genC20VLine(t *rapid.T) C20VLine {
 		}
 		l.Steps = append(l.Steps, s)
 	}
+	l.OnActive = rapid.SampledFrom([]string{"", "", "", "", "", "close", "panic"}).Draw(t, "onactive")
 	switch rapid.IntRange(0, 7).Draw(t, "special") {
 	case 0:
 		l.PanicOn = rapid.IntRange(1, 2).Draw(t, "panicon")
@@ -78,7 +85,7 @@ type c20vObs struct {
 	afterInactive                                                             map[string]int
 	cbPanics                                                                  []interface{}
 	delayedAfterStim, pendingAtInactive, exactDue, lateStim, closedInTimeline bool
-	slowWrite, refusedWrite                                                   bool
+	slowWrite, refusedWrite, slowRead                                         bool
 	viol                                                                      *core.Violation
 }
 
@@ -135,8 +142,20 @@ func runC20VLine(l C20VLine) (*c20vObs, *core.Violation) {
 	lingerMs := 0
 	nEvents := 0
 	excPanicked := false
+	var rSlow time.Duration
 	pl.AddLast(netty.ActiveHandlerFunc(func(ctx netty.ActiveContext) {
 		obs.stims = append(obs.stims, c20vEvent{"active", clock.Elapsed()})
+		switch l.OnActive {
+		case "close":
+			if !closed {
+				closed = true
+				closeBegin = clock.Elapsed()
+				ctx.Close(fmt.Errorf("verif: closed during activation"))
+			}
+			return
+		case "panic":
+			panic(fmt.Errorf("verif: active handler panic"))
+		}
 		ctx.HandleActive()
 	}), netty.EventHandlerFunc(func(ctx netty.EventContext, ev netty.Event) {
 		kind := ""
@@ -191,6 +210,9 @@ func runC20VLine(l C20VLine) (*c20vObs, *core.Violation) {
 		}
 		ctx.HandleInactive(ex)
 	}), netty.InboundHandlerFunc(func(ctx netty.InboundContext, m netty.Message) {
+		if rSlow > 0 {
+			clock.Advance(rSlow)
+		}
 		if rd, ok := m.(interface{ Read([]byte) (int, error) }); ok {
 			buf := make([]byte, 64)
 			if _, err := rd.Read(buf); err != nil {
@@ -236,6 +258,16 @@ func runC20VLine(l C20VLine) (*c20vObs, *core.Violation) {
 		case "read":
 			if closed {
 				obs.lateStim = true
+			}
+			if s.Ms > 0 && l.Prompt && !closed {
+				// the message has passed the idle handler once the handlers behind it are done with it; what the
+				// timers do meanwhile is judged by the persistence rule (events keep coming while nothing passes)
+				rSlow = time.Duration(s.Ms) * time.Millisecond
+				obs.slowRead = true
+				guard(func() { pl.FireChannelRead("inbound") })
+				rSlow = 0
+				obs.stims = append(obs.stims, c20vEvent{"read", clock.Elapsed()})
+				break
 			}
 			obs.stims = append(obs.stims, c20vEvent{"read", clock.Elapsed()})
 			guard(func() { pl.FireChannelRead("inbound") })
@@ -397,6 +429,14 @@ func runC20V(c C20Case) (out core.Outcome) {
 		}
 		if obs.lateStim {
 			cls.Add("v:stimulus-after-inactive")
+			out.NonTrivial = true
+		}
+		if obs.slowRead {
+			cls.Add("v:read-slow-behind-handler")
+			out.NonTrivial = true
+		}
+		if l.OnActive != "" {
+			cls.Add("v:on-active:%s", l.OnActive)
 			out.NonTrivial = true
 		}
 		if obs.slowWrite {
